@@ -30,46 +30,95 @@ Open Scope list_scope.
 Inductive sk :=
 | Skip | Fill | Touch
 | Seq (a b : sk) | Alt (a b : sk) | Loop (a : sk)
+| IfC (c : string) (a b : sk)
 | Call (g : string).
 
 Record skel_entry := { se_status : string; se_roots : list string; se_env : list (string * sk) }.
 
 Inductive ev := EF | ET.
 
+(** the guard names tested in a skeleton (not descending into callees: guards are
+    parameters of one function, fixed for one activation of it) *)
+Fixpoint conds_of (s : sk) : list string :=
+  match s with
+  | Seq a b | Alt a b => conds_of a ++ conds_of b
+  | Loop a => conds_of a
+  | IfC c a b => c :: conds_of a ++ conds_of b
+  | _ => []
+  end.
+
+(** all truth assignments to a list of guard names (names outside the list: false) *)
+Fixpoint all_vals (cs : list string) : list (string -> bool) :=
+  match cs with
+  | [] => [fun _ => false]
+  | c :: r => flat_map (fun rho => [fun x => if String.eqb x c then true else rho x;
+                                    fun x => if String.eqb x c then false else rho x]) (all_vals r)
+  end.
+
+Lemma all_vals_complete cs (rho : string -> bool) :
+  exists rho', In rho' (all_vals cs) /\ forall c, In c cs -> rho' c = rho c.
+Proof.
+  induction cs as [|c r IH]; cbn [all_vals].
+  - exists (fun _ => false). split; [left; reflexivity|intros c []].
+  - destruct IH as [r0 [Hin Hag]].
+    exists (fun x => if String.eqb x c then rho c else r0 x). split.
+    + apply in_flat_map. exists r0. split; [exact Hin|].
+      destruct (rho c); [left|right; left]; reflexivity.
+    + intros x [<-|Hx]; [now rewrite String.eqb_refl|].
+      destruct (String.eqb x c) eqn:E; [apply String.eqb_eq in E; now subst|now apply Hag].
+Qed.
+
 Section Skeleton.
   Variable env : string -> sk.
 
-  (** traces admitted by a skeleton: any branch, any number of loop iterations, calls
-      unfolded to any depth *)
-  Inductive den : sk -> list ev -> Prop :=
-  | d_skip : den Skip []
-  | d_fill : den Fill [EF]
-  | d_touch : den Touch [ET]
-  | d_seq a b t1 t2 : den a t1 -> den b t2 -> den (Seq a b) (t1 ++ t2)
-  | d_altl a b t : den a t -> den (Alt a b) t
-  | d_altr a b t : den b t -> den (Alt a b) t
-  | d_loop0 a : den (Loop a) []
-  | d_loopS a t1 t2 : den a t1 -> den (Loop a) t2 -> den (Loop a) (t1 ++ t2)
-  | d_call g t : den (env g) t -> den (Call g) t.
+  (** traces admitted by a skeleton under a guard valuation: any branch, any number of
+      loop iterations, calls unfolded to any depth, each activation of a callee with
+      its own guard valuation *)
+  Inductive den : (string -> bool) -> sk -> list ev -> Prop :=
+  | d_skip rho : den rho Skip []
+  | d_fill rho : den rho Fill [EF]
+  | d_touch rho : den rho Touch [ET]
+  | d_seq rho a b t1 t2 : den rho a t1 -> den rho b t2 -> den rho (Seq a b) (t1 ++ t2)
+  | d_altl rho a b t : den rho a t -> den rho (Alt a b) t
+  | d_altr rho a b t : den rho b t -> den rho (Alt a b) t
+  | d_loop0 rho a : den rho (Loop a) []
+  | d_loopS rho a t1 t2 : den rho a t1 -> den rho (Loop a) t2 -> den rho (Loop a) (t1 ++ t2)
+  | d_ifT rho c a b t : rho c = true -> den rho a t -> den rho (IfC c a b) t
+  | d_ifF rho c a b t : rho c = false -> den rho b t -> den rho (IfC c a b) t
+  | d_call rho rho' g t : den rho' (env g) t -> den rho (Call g) t.
 
   (** abstract values: [N] no event yet on some path (and nothing bad on any),
       [Fd] every path has filled, [Bad] some path may touch before a fill *)
   Inductive av := N | Fd | Bad.
 
-  Fixpoint check (fuel : nat) : sk -> av :=
+  Definition join2 (x y : av) : av :=
+    match x, y with
+    | Bad, _ | _, Bad => Bad
+    | Fd, Fd => Fd
+    | _, _ => N
+    end.
+
+  (** join over a non-empty list of results *)
+  Fixpoint joinl (l : list av) : av :=
+    match l with
+    | [] => Fd
+    | x :: r => join2 x (joinl r)
+    end.
+
+  Fixpoint check (fuel : nat) (rho : string -> bool) : sk -> av :=
     fix go (s : sk) : av :=
       match s with
       | Skip => N
       | Fill => Fd
       | Touch => Bad
       | Seq a b => match go a with N => go b | r => r end
-      | Alt a b => match go a, go b with
-                   | Bad, _ | _, Bad => Bad
-                   | Fd, Fd => Fd
-                   | _, _ => N
-                   end
+      | Alt a b => join2 (go a) (go b)
       | Loop a => match go a with Bad => Bad | _ => N end
-      | Call g => match fuel with O => Bad | S n => check n (env g) end
+      | IfC c a b => if rho c then go a else go b
+      | Call g => match fuel with
+                  | O => Bad
+                  | S n => joinl (map (fun rho' => check n rho' (env g)) (all_vals (conds_of (env g))))
+                  end
       end.
 
   Definition starts_F (t : list ev) : Prop := exists t', t = EF :: t'.
@@ -85,42 +134,79 @@ Section Skeleton.
   Lemma starts_holds r t : starts_F t -> holds r t.
   Proof. intros H. destruct r; cbn; [right; exact H|exact H|exact I]. Qed.
 
-  Lemma check_sound_gen : forall s t, den s t -> forall fuel, holds (check fuel s) t.
+  Lemma holds_join2_l x y t : holds x t -> holds (join2 x y) t.
+  Proof. destruct x, y; cbn; auto; try (intros H; right; exact H). Qed.
+  Lemma holds_join2_r x y t : holds y t -> holds (join2 x y) t.
+  Proof. destruct x, y; cbn; auto; try (intros H; right; exact H). Qed.
+
+  Lemma holds_joinl r l t : In r l -> holds r t -> holds (joinl l) t.
   Proof.
-    induction 1 as [ | | |a b t1 t2 H1 IH1 H2 IH2|a b t H IH|a b t H IH|a|a t1 t2 H1 IH1 H2 IH2|g t H IH]; intro fuel.
+    induction l as [|x l IH]; [intros []|]. intros [<-|Hin] Hh; cbn [joinl].
+    - now apply holds_join2_l.
+    - apply holds_join2_r. now apply IH.
+  Qed.
+
+  (** the analysis looks at a valuation only through the guards of the skeleton *)
+  Lemma check_ext fuel s : forall r1 r2, (forall c, In c (conds_of s) -> r1 c = r2 c) ->
+                                          check fuel r1 s = check fuel r2 s.
+  Proof.
+    induction s as [ | | |a IHa b IHb|a IHa b IHb|a IHa|c a IHa b IHb|g]; intros r1 r2 H;
+      try (destruct fuel; reflexivity).
+    - assert (Ea : check fuel r1 a = check fuel r2 a) by (apply IHa; intros c Hc; apply H; cbn; apply in_or_app; now left).
+      assert (Eb : check fuel r1 b = check fuel r2 b) by (apply IHb; intros c Hc; apply H; cbn; apply in_or_app; now right).
+      destruct fuel; cbn in *; rewrite Ea, Eb; reflexivity.
+    - assert (Ea : check fuel r1 a = check fuel r2 a) by (apply IHa; intros c Hc; apply H; cbn; apply in_or_app; now left).
+      assert (Eb : check fuel r1 b = check fuel r2 b) by (apply IHb; intros c Hc; apply H; cbn; apply in_or_app; now right).
+      destruct fuel; cbn in *; rewrite Ea, Eb; reflexivity.
+    - assert (Ea : check fuel r1 a = check fuel r2 a) by (apply IHa; intros c Hc; apply H; exact Hc).
+      destruct fuel; cbn in *; rewrite Ea; reflexivity.
+    - assert (Ec : r1 c = r2 c) by (apply H; left; reflexivity).
+      assert (Ea : check fuel r1 a = check fuel r2 a) by (apply IHa; intros x Hx; apply H; right; apply in_or_app; now left).
+      assert (Eb : check fuel r1 b = check fuel r2 b) by (apply IHb; intros x Hx; apply H; right; apply in_or_app; now right).
+      destruct fuel; cbn in *; rewrite Ec, Ea, Eb; reflexivity.
+  Qed.
+
+  Lemma check_sound_gen : forall rho s t, den rho s t -> forall fuel, holds (check fuel rho s) t.
+  Proof.
+    induction 1 as [rho|rho|rho|rho a b t1 t2 H1 IH1 H2 IH2|rho a b t H IH|rho a b t H IH|rho a
+                   |rho a t1 t2 H1 IH1 H2 IH2|rho c a b t Hc H IH|rho c a b t Hc H IH|rho rho' g t H IH]; intro fuel.
     - destruct fuel; cbn; left; reflexivity.
     - destruct fuel; cbn; exists []; reflexivity.
     - destruct fuel; cbn; exact I.
     - specialize (IH1 fuel). specialize (IH2 fuel).
-      assert (E : check fuel (Seq a b) = match check fuel a with N => check fuel b | r => r end) by (destruct fuel; reflexivity).
-      rewrite E. destruct (check fuel a) eqn:Ea; cbn [holds] in IH1.
+      assert (E : check fuel rho (Seq a b) = match check fuel rho a with N => check fuel rho b | r => r end) by (destruct fuel; reflexivity).
+      rewrite E. destruct (check fuel rho a) eqn:Ea; cbn [holds] in IH1.
       + destruct IH1 as [->|Hs]; [exact IH2|apply starts_holds, starts_F_app, Hs].
       + cbn. apply starts_F_app, IH1.
       + exact I.
-    - specialize (IH fuel).
-      assert (E : check fuel (Alt a b) = match check fuel a, check fuel b with
-                                          | Bad, _ | _, Bad => Bad | Fd, Fd => Fd | _, _ => N end) by (destruct fuel; reflexivity).
-      rewrite E. destruct (check fuel a), (check fuel b); cbn in *; auto; try (right; exact IH).
-    - specialize (IH fuel).
-      assert (E : check fuel (Alt a b) = match check fuel a, check fuel b with
-                                          | Bad, _ | _, Bad => Bad | Fd, Fd => Fd | _, _ => N end) by (destruct fuel; reflexivity).
-      rewrite E. destruct (check fuel a), (check fuel b); cbn in *; auto; try (right; exact IH).
-    - assert (E : check fuel (Loop a) = match check fuel a with Bad => Bad | _ => N end) by (destruct fuel; reflexivity).
-      rewrite E. destruct (check fuel a); cbn; auto; left; reflexivity.
+    - assert (E : check fuel rho (Alt a b) = join2 (check fuel rho a) (check fuel rho b)) by (destruct fuel; reflexivity).
+      rewrite E. apply holds_join2_l, IH.
+    - assert (E : check fuel rho (Alt a b) = join2 (check fuel rho a) (check fuel rho b)) by (destruct fuel; reflexivity).
+      rewrite E. apply holds_join2_r, IH.
+    - assert (E : check fuel rho (Loop a) = match check fuel rho a with Bad => Bad | _ => N end) by (destruct fuel; reflexivity).
+      rewrite E. destruct (check fuel rho a); cbn; auto; left; reflexivity.
     - specialize (IH1 fuel). specialize (IH2 fuel).
-      assert (E : check fuel (Loop a) = match check fuel a with Bad => Bad | _ => N end) by (destruct fuel; reflexivity).
-      rewrite E in *. destruct (check fuel a); cbn in *.
+      assert (E : check fuel rho (Loop a) = match check fuel rho a with Bad => Bad | _ => N end) by (destruct fuel; reflexivity).
+      rewrite E in *. destruct (check fuel rho a); cbn in *.
       + destruct IH1 as [->|Hs]; [exact IH2|right; apply starts_F_app, Hs].
       + right. apply starts_F_app, IH1.
       + exact I.
-    - destruct fuel; [exact I|]. cbn. apply IH.
+    - assert (E : check fuel rho (IfC c a b) = if rho c then check fuel rho a else check fuel rho b) by (destruct fuel; reflexivity).
+      rewrite E, Hc. apply IH.
+    - assert (E : check fuel rho (IfC c a b) = if rho c then check fuel rho a else check fuel rho b) by (destruct fuel; reflexivity).
+      rewrite E, Hc. apply IH.
+    - destruct fuel; [exact I|]. cbn [check].
+      destruct (all_vals_complete (conds_of (env g)) rho') as [r0 [Hin Hag]].
+      apply (holds_joinl (check fuel r0 (env g))).
+      + apply in_map_iff. exists r0. split; [reflexivity|exact Hin].
+      + rewrite (check_ext fuel (env g) r0 rho' Hag). apply IH.
   Qed.
 
   (** the analysis is sound: not [Bad] implies every admitted trace is safe *)
-  Theorem check_sound fuel s : check fuel s <> Bad -> forall t, den s t -> safe t.
+  Theorem check_sound fuel rho s : check fuel rho s <> Bad -> forall t, den rho s t -> safe t.
   Proof.
-    intros Hb t Hd. pose proof (check_sound_gen s t Hd fuel) as H.
-    destruct (check fuel s); cbn in H; [exact H|right; exact H|congruence].
+    intros Hb t Hd. pose proof (check_sound_gen rho s t Hd fuel) as H.
+    destruct (check fuel rho s); cbn in H; [exact H|right; exact H|congruence].
   Qed.
 
   (** an execution may stop early (return, error, panic): prefixes of safe traces are safe *)
@@ -145,15 +231,16 @@ Definition skel_fuel : nat := 40.
 
 Definition decided (e : skel_entry) : bool :=
   String.eqb (se_status e) "ok"
-  && forallb (fun r => negb (is_bad (check (env_of (se_env e)) skel_fuel (Call r)))) (se_roots e).
+  && forallb (fun r => negb (is_bad (check (env_of (se_env e)) skel_fuel (fun _ => false) (Call r)))) (se_roots e).
 
 Lemma decided_sound e :
   decided e = true ->
-  forall r t, In r (se_roots e) -> den (env_of (se_env e)) (Call r) t -> safe t.
+  forall r rho t, In r (se_roots e) -> den (env_of (se_env e)) rho (Call r) t -> safe t.
 Proof.
-  unfold decided. intros H r t Hr Hd. apply andb_prop in H as [_ H].
+  unfold decided. intros H r rho t Hr Hd. apply andb_prop in H as [_ H].
   rewrite forallb_forall in H. specialize (H r Hr).
-  apply (check_sound (env_of (se_env e)) skel_fuel (Call r)); [|exact Hd].
+  assert (Hd' : den (env_of (se_env e)) (fun _ => false) (Call r) t) by (inversion Hd; subst; econstructor; eassumption).
+  apply (check_sound (env_of (se_env e)) skel_fuel (fun _ => false) (Call r)); [|exact Hd'].
   intro Hb. rewrite Hb in H. discriminate.
 Qed.
 
@@ -273,15 +360,24 @@ End Frame.
 Module SkelExample.
   Definition env (g : string) : sk :=
     if String.eqb g "init" then Fill else if String.eqb g "use" then Touch else Skip.
-  Example accepts_fill_then_read : check env 5 (Seq (Call "init") (Loop (Call "use"))) = Fd.
+  Example accepts_fill_then_read : check env 5 (fun _ => false) (Seq (Call "init") (Loop (Call "use"))) = Fd.
   Proof. reflexivity. Qed.
-  Example rejects_read_then_fill : check env 5 (Seq (Call "use") (Call "init")) = Bad.
+  Example rejects_read_then_fill : check env 5 (fun _ => false) (Seq (Call "use") (Call "init")) = Bad.
   Proof. reflexivity. Qed.
-  Example rejects_fill_on_one_branch : check env 5 (Seq (Alt Fill Skip) Touch) = Bad.
+  Example rejects_fill_on_one_branch : check env 5 (fun _ => false) (Seq (Alt Fill Skip) Touch) = Bad.
   Proof. reflexivity. Qed.
-  Example rejects_fill_in_loop : check env 5 (Seq (Loop Fill) Touch) = Bad.
+  Example rejects_fill_in_loop : check env 5 (fun _ => false) (Seq (Loop Fill) Touch) = Bad.
   Proof. reflexivity. Qed.
-  Example unsafe_trace_exists : den env (Seq (Loop Fill) Touch) [ET] /\ ~ safe [ET].
+  (** correlated guards: fill and use under the same guard are accepted, under different
+      guards rejected (the callee "g" is analysed for every valuation of its guards) *)
+  Definition env2 (g : string) : sk :=
+    if String.eqb g "g" then Seq (IfC "p" Fill Skip) (IfC "p" Touch Skip)
+    else if String.eqb g "h" then Seq (IfC "p" Fill Skip) (IfC "q" Touch Skip) else Skip.
+  Example accepts_correlated_guard : check env2 5 (fun _ => false) (Call "g") = N.
+  Proof. reflexivity. Qed.
+  Example rejects_uncorrelated_guard : check env2 5 (fun _ => false) (Call "h") = Bad.
+  Proof. reflexivity. Qed.
+  Example unsafe_trace_exists : den env (fun _ => false) (Seq (Loop Fill) Touch) [ET] /\ ~ safe [ET].
   Proof.
     split.
     - change [ET] with ([] ++ [ET]). constructor; constructor.
